@@ -146,6 +146,16 @@ func (r *vfRun) Eval(cell string) {
 	r.mu.Unlock()
 }
 
+// EvalN counts n evaluated cases of one cell at once (for checks that aggregate millions of observations).
+func (r *vfRun) EvalN(cell string, n int64) {
+	r.mu.Lock()
+	r.evaluations += n
+	if cell != "" {
+		r.cells[cell] += int(n)
+	}
+	r.mu.Unlock()
+}
+
 func (r *vfRun) Count(name string, n int64) {
 	r.mu.Lock()
 	r.counters[name] += n
@@ -259,6 +269,7 @@ func (r *vfRun) Finish(minEvals int64, minCells int) {
 		"inconclusive":        r.inconclusive,
 		"inconclusive_notes":  r.inconcNotes,
 		"known_findings_seen": r.knownSeen,
+		"violation_signatures": r.violSigs,
 		"exhaustive":          r.exhaustive,
 	}
 	for k, v := range r.extra {
